@@ -16,7 +16,7 @@ INFO = {
                    "every position whose flag is cleared is written (reset) in the same call; nothing else is touched. R15-2: "
                    "get_empty_leaves_indices is flags.iter().take(high-water mark).enumerate().filter(== 0).map(index) in every back end "
                    "and RLN::get_empty_leaves_indices serialises exactly that vector. R15-3: a constructor that may load a persisted "
-                   "tree must derive the flags from the store (PmTree::new's load branch). R15-1 per path: every path of a mutator that can end in success and changes a leaf directly (a node store, or a call of the storage tree's own set / delete / set_range / update_next) also stores flags on that path or in a loop it runs.",
+                   "tree must derive the flags from the store (PmTree::new's load branch). R15-1 per path: every path of a mutator that can end in success and changes a leaf directly (a node store, or a call of the storage tree's own set / delete / set_range / update_next) also stores flags on that path or in a loop it runs. R15-5 (shared, C06 R06-11): every leaf write reaches the store the reopened flags are rebuilt from.",
     "not_decided": "histories as such (the per-step pairing gives the invariant by induction given C06's formulas); pmtree's own bookkeeping",
     "assumptions": ["pmtree's set/set_range/update_next/delete write exactly the documented positions (its source was read; not analysed)"],
 }
